@@ -70,7 +70,7 @@ type Bind struct {
 	Resource string   `xml:"resource,omitempty"`
 	Jid      string   `xml:"jid,omitempty"`
 	// Result sets
-	ResultSet *ResultSet `xml:"set,omitempty"`
+	ResultSet *ResultSet `xml:"http://jabber.org/protocol/rsm set,omitempty"`
 }
 
 func (b *Bind) Namespace() string {
@@ -96,7 +96,7 @@ type StreamSession struct {
 	XMLName  xml.Name  `xml:"urn:ietf:params:xml:ns:xmpp-session session"`
 	Optional *struct{} `xml:"optional"` // If element does exist, it mean we are not required to open session
 	// Result sets
-	ResultSet *ResultSet `xml:"set,omitempty"`
+	ResultSet *ResultSet `xml:"http://jabber.org/protocol/rsm set,omitempty"`
 }
 
 func (s *StreamSession) Namespace() string {
